@@ -9,7 +9,7 @@ import (
 
 func init() { registry["C16"] = checkC16 }
 
-var c16n struct{ points, runs, same, failed int64 }
+var c16n struct{ points, runs, same, failed, followUps int64 }
 
 func c16Trans(thorough bool) func(c *Ctx, pre *Node, st Step, res *Result, post *State) ([]Violation, bool) {
 	return func(c *Ctx, pre *Node, st Step, res *Result, post *State) ([]Violation, bool) {
@@ -94,6 +94,10 @@ func c16Trans(thorough bool) func(c *Ctx, pre *Node, st Step, res *Result, post 
 						break
 					}
 				}
+				// the next command on the disk the failed command left behind
+				if r.Exit != 0 {
+					atomic.AddInt64(&c16n.followUps, int64(followUps(c, pre.State, pa, got, st, add)))
+				}
 			}
 		}
 		return vs, true
@@ -110,11 +114,12 @@ func checkC16(e *RunEnv) *CheckResult {
 	res := runSpec(e, spec, func(x *Explorer, cov map[string]interface{}) {
 		cov["fault_positions"] = int(c16n.points)
 		cov["fault_runs"] = int(c16n.runs)
+		cov["follow_up_runs"] = int(c16n.followUps)
 		cov["runs_with_identical_result"] = int(c16n.same)
 		cov["runs_reported_as_failure"] = int(c16n.failed)
 		cov["evaluations"] = int(c16n.runs)
 		cov["distinct_nontrivial"] = int(c16n.failed)
-		cov["rule"] = "corpus = every transition of a BFS (depth bound) over one representative of each modifying command from six seed states; for each transition the operation trace is recorded through the file-system seam and the command is re-run once per (operation point of kind create/open/read/readdir/write/mkdir/rename/remove, errno class), that one operation failing without touching the disk; each run is judged against the fault-free run; distinct_nontrivial = injected runs in which the fault changed the outcome and was reported as a failure"
+		cov["rule"] = "corpus = every transition of a BFS (depth bound) over one representative of each modifying command from six seed states; for each transition the operation trace is recorded through the file-system seam and the command is re-run once per (operation point of kind create/open/read/readdir/write/mkdir/rename/remove, errno class), that one operation failing without touching the disk; each run is judged against the fault-free run, and where the failed command changed the disk the next command (the same command again; with leftover temporary files also switch, switch -c, add ., commit) must leave a structurally sound repository; distinct_nontrivial = injected runs in which the fault changed the outcome and was reported as a failure"
 		var kinds []string
 		for k, n := range x.Outcomes {
 			kinds = append(kinds, fmt.Sprintf("%s=%d", k, n))
